@@ -314,7 +314,7 @@ def main():
     "loaded into a fresh Engine and Calculate applied, with the three clauses checked on every "
     "table; non-trivial = the bundle changed the document (stored actions non-empty) or raised")
   explore.explore(rep, "checks.C07", "C07Monitor", n_quick=144, n_thorough=4000,
-                  budget_quick_s=50, budget_thorough_s=800)
+                  budget_quick_s=38, budget_thorough_s=800)
   return rep.finish()
 
 
